@@ -1461,6 +1461,10 @@ class Interp:
                     else:
                         f_env[key] = c
             return t_env, f_env
+        if isinstance(test, ast.Name):
+            named = self._named_condition(test)
+            if named is not None:
+                return self.narrow(named, env)
         if isinstance(test, (ast.Name, ast.Attribute)):
             key = self._narrow_key(test)
             if key is not None:
@@ -1468,6 +1472,45 @@ class Interp:
                 t_env[key] = replace(cur, types=cur.types - {"None"})
             return t_env, f_env
         return t_env, f_env
+
+    def _named_condition(self, use: ast.Name) -> ast.expr | None:
+        """`c = <test>` ... `if c:` decides what `if <test>:` decides, when c has that one definition in the function and nothing
+        the test reads is rebound between the definition and the use (lexically: every store to an operand lies before the
+        definition or after the use)."""
+        f = self.cur
+        node = getattr(f, "node", None)
+        if node is None:
+            return None
+        cache = self.__dict__.setdefault("_named_cond_cache", {})
+        tab = cache.get(id(node))
+        if tab is None:
+            stores: dict[str, list[int]] = {}
+            defs: dict[str, list[ast.Assign | ast.AnnAssign]] = {}
+            for a in node.args.posonlyargs + node.args.args + node.args.kwonlyargs:
+                stores.setdefault(a.arg, []).append(node.lineno)
+            for x in ast.walk(node):
+                if isinstance(x, ast.Name) and isinstance(x.ctx, (ast.Store, ast.Del)):
+                    stores.setdefault(x.id, []).append(x.lineno)
+                if isinstance(x, (ast.Assign, ast.AnnAssign)) and x.value is not None:
+                    tg = x.targets[0] if isinstance(x, ast.Assign) and len(x.targets) == 1 else getattr(x, "target", None)
+                    if isinstance(tg, ast.Name):
+                        defs.setdefault(tg.id, []).append(x)
+            tab = cache[id(node)] = (stores, defs)
+        stores, defs = tab
+        ds = defs.get(use.id, [])
+        if len(ds) != 1 or len(stores.get(use.id, [])) != 1:
+            return None
+        d = ds[0]
+        v = d.value
+        if not isinstance(v, (ast.BoolOp, ast.Compare, ast.UnaryOp)) and not (
+                isinstance(v, ast.Call) and isinstance(v.func, ast.Name) and v.func.id == "isinstance"):
+            return None
+        if d.lineno >= use.lineno:
+            return None
+        for x in ast.walk(v):
+            if isinstance(x, ast.Name) and any(d.lineno <= ln <= use.lineno for ln in stores.get(x.id, [])):
+                return None
+        return v
 
     @staticmethod
     def _narrow_key(n: ast.expr) -> str | None:
